@@ -20,6 +20,10 @@ use std::time::Duration;
 struct Filter(String);
 impl RequestFilter for Filter {
     fn allow_request(&self, _request: &RequestSpecific, from: SocketAddrV4) -> bool {
+        // the harness' helper peer (10.77/16) and the node's own address (its self-ping) are not subject to the veto
+        if from.ip().octets()[..2] == [10, 77] || *from.ip() == Ipv4Addr::new(45, 77, 1, 1) {
+            return true;
+        }
         match self.0.as_str() {
             "denyall" => false,
             "denyb" => from.ip() != &ip_of("b"),
@@ -435,6 +439,23 @@ pub fn replay(b: &Value, out: &mut Out, seed: u64) -> (u64, bool, bool) {
     let mut o = NodeOpts::server(Ipv4Addr::new(45, 77, 1, 1), &[]);
     o.settings = Some(settings);
     let n = sim.add_node(o);
+    if b["rekey"].as_bool().unwrap_or(false) {
+        // the node learns its public address from a peer, confirms it with the ping it sends itself and takes the BEP42 id for
+        // it (its random id is not valid for 45.77.1.1) - before the history starts: the configured filter and capacities
+        // are those of the node, whatever id it has
+        use crate::fakenet::*;
+        let id0 = sim.snapshot(n).map(|s| s.id.clone()).unwrap_or_default();
+        let pid = crypto::sha1(b"helper peer");
+        let net = FakeNet::install(&mut sim, &[pid], Box::new(|_, _, _| Reply::Default));
+        let paddr: SocketAddrV4 = net.bootstrap()[0].parse().expect("addr");
+        let _ = sim.exchange(n, paddr, &krpc::find_node(77, &pid, &pid, false).encode());
+        let mut call = sim.call_get(n, crate::calls::GetKind::FindNode, crypto::sha1(b"some target"), "warmup");
+        sim.poke(n);
+        sim.run_calls(&mut [&mut call], 5000);
+        sim.run_for(1500);
+        let rekeyed = sim.snapshot(n).map(|s| s.id != id0).unwrap_or(false);
+        out.line(&json!({"e":"note","b":b["b"],"rekeyed":rekeyed}));
+    }
     // a second, unrelated server whose token for address "a" is the "foreign" token
     let f = sim.add_node(NodeOpts::server(Ipv4Addr::new(45, 77, 1, 2), &[]));
     let server_addr = sim.nodes[n].addr;
@@ -731,6 +752,28 @@ pub fn sig_replay_probes(id0: u64) -> Vec<Value> {
     v
 }
 
+/// The same node after it took a new id: histories that start once a public-address server has confirmed its address and
+/// re-keyed. Vetoed requests are still vetoed, small stores are still small.
+pub fn rekey_probes(id0: u64) -> Vec<Value> {
+    let a = json!({"ip": "a", "port": 1001});
+    let bb = json!({"ip": "b", "port": 1001});
+    let tok = json!({"kind":"issued","step":0});
+    let get = |f: &Value, k: &str| json!({"kind":"get","from":f,"t":["m",k,""],"seqf":-1});
+    let put = |f: &Value, k: &str, step: u64| json!({"kind":"putmut","from":f,"tok":{"kind":"issued","step":step},"k":k,"tk":k,"salt":"","slen":0,"seq":1,"cas":-1,"val":"w1","vlen":0,"sigok":true});
+    let _ = tok;
+    let mut v = vec![];
+    v.push(json!({"b": id0, "rekey": true, "filter": "denyall", "caps": {"imm": 1000, "mut": 1000, "hash": 2000, "peers": 500},
+        "steps": [json!({"kind":"ping","from":a}), get(&a, "k1"), json!({"kind":"findnode","from":a}), json!({"kind":"getpeers","from":a,"t":"h1"})]}));
+    v.push(json!({"b": id0 + 1, "rekey": true, "filter": "denyb", "caps": {"imm": 1000, "mut": 1000, "hash": 2000, "peers": 500},
+        "steps": [get(&bb, "k1"), json!({"kind":"ping","from":bb}), get(&a, "k1"), put(&a, "k1", 2), get(&bb, "k1"), get(&a, "k1")]}));
+    v.push(json!({"b": id0 + 2, "rekey": true, "filter": "allow", "caps": {"imm": 1, "mut": 1, "hash": 1, "peers": 1},
+        "steps": [get(&a, "k1"), put(&a, "k1", 0), put(&a, "k2", 0), get(&a, "k1"), get(&a, "k2"),
+                  json!({"kind":"announce","from":a,"tok":{"kind":"issued","step":0},"t":"h1","nid":"n1","port":7,"implied":false}),
+                  json!({"kind":"announce","from":a,"tok":{"kind":"issued","step":0},"t":"h2","nid":"n2","port":8,"implied":false}),
+                  json!({"kind":"getpeers","from":a,"t":"h1"}), json!({"kind":"getpeers","from":a,"t":"h2"})]}));
+    v
+}
+
 /// Crowds: N different announcers (node ids, ports) / N different signers on ONE info_hash, then a lookup of it, for N around
 /// the size of an answer (20 peers / 10 signed announcements: an answer is a random sample once more are stored), a few more
 /// announces and lookups, and a second info_hash beside it.
@@ -851,7 +894,7 @@ pub fn run(args: &Args) -> i32 {
     let focus = args.str("focus", "C03");
     let mut rng = Rng::new(seed.wrapping_mul(77).wrapping_add(5));
     if n > 0 || args.u64("probes", 0) > 0 {
-        for b in lru_probes(2_000_000).into_iter().chain(crowd_probes(3_000_000)).chain(sig_replay_probes(5_000_000)) {
+        for b in lru_probes(2_000_000).into_iter().chain(crowd_probes(3_000_000)).chain(sig_replay_probes(5_000_000)).chain(rekey_probes(6_000_000)) {
             let r = replay(&b, &mut out, seed);
             t.add(&b, r);
         }
